@@ -1014,7 +1014,7 @@ func checkIPv6(data string) bool {
 			if len(f) > 4 {
 				return false
 			}
-			n := std.Atoi(f, 16)
+			n := std.Atoi("0"+f, 16) // leading zero keeps the number positive
 			if 65535 < n {
 				panic("fragment overflows uint16: " + f)
 			}
